@@ -9,6 +9,8 @@
     3. True/False elimination in DFS post-order: And drops an edge into True; an Or with a True child
        becomes True itself; Or drops an edge into
        False; an And with a False child is deleted together with its chain of And ancestors;
+    3b. features mentioned only next to a False node do not occur below the root any more: they are
+       added under the And root like the unmentioned ones (repaired loader);
     4. smoothing: for every Or (DFS post-order) each child that misses variables mentioned by its
        siblings is wrapped in a new And together with the triangles of the missing variables
        (ascending — the repaired iteration order);
@@ -239,6 +241,23 @@ def smooth (sorted : Bool) (h : List Nat → List Nat) (s : LState) (root : Nat)
     | some .or => balance sorted h s nx (missing ((s.g.outs.getD nx []).map fun c => (c, vs.getD c [])))
     | _ => s) s
 
+/-- features that are mentioned in the file but no longer occur below the root after the True/False
+elimination (they were only mentioned next to a False node) hang under the (new) And root as well
+(repaired loader); runs between elimination and smoothing -/
+def addVanished (s : LState) (root : Nat) : LState × Nat :=
+  let present := (varSets s.g root).getD root []
+  (List.range s.total).foldl (fun (acc : LState × Nat) k =>
+    let f := k + 1
+    let (s, root) := acc
+    if !(s.occurs.contains f) || present.contains f then (s, root)
+    else
+      let (s, root) :=
+        if root == 0 then
+          let (g, r) := s.g.addNode .and
+          ({ s with g := g.addEdge r 0 }, r)
+        else (s, root)
+      (s.addTriangle f root, root)) (s, root)
+
 /-! ### phase 5: `rebuild` -/
 
 def flattenGraph (g : G) (root : Nat) : List NType :=
@@ -261,7 +280,8 @@ def loadWith (sorted : Bool) (h : List Nat → List Nat) (lines : List Line) (to
   let s1 := lines.foldl stepLine s0
   let (s2, root) := addFree s1
   let g3 := eliminate s2.g root
-  let s4 := smooth sorted h { s2 with g := g3 } root
+  let (s3, root) := addVanished { s2 with g := g3 } root
+  let s4 := smooth sorted h s3 root
   (s2.total, flattenGraph s4.g root, s4.g.err)
 
 /-- the loader of the current (repaired) code; by `load_independent_of_hash_order` the choice of `h` is irrelevant -/
